@@ -2,6 +2,7 @@ package main
 
 import (
 	"fmt"
+	"go/constant"
 	"go/token"
 	"go/types"
 	"sort"
@@ -245,6 +246,56 @@ func (a *linAn) condFacts() {
 			case token.NEQ:
 				a.facts = append(a.facts, fact{f: addF(x, y, -1), scope: s, why: why, neq: true})
 			}
+		}
+	}
+}
+
+// tableFacts: a value loaded from a constant package-level table lies between the smallest and the largest entry of the
+// table (absent entries are zero).
+func (a *linAn) tableFacts() {
+	for _, b := range a.fn.Blocks {
+		for _, ins := range b.Instrs {
+			u, ok := ins.(*ssa.UnOp)
+			if !ok || u.Op != token.MUL || !isInt(u.Type()) {
+				continue
+			}
+			ia, ok := u.X.(*ssa.IndexAddr)
+			if !ok {
+				continue
+			}
+			g, ok := ia.X.(*ssa.Global)
+			if !ok || g.Pkg == nil {
+				continue
+			}
+			tab, _, ok := a.c.tableOf(g.Pkg.Pkg.Path(), g.Name())
+			if !ok {
+				continue
+			}
+			lo, hi := int64(0), int64(0)
+			okAll := true
+			for _, cv := range tab {
+				n, isInt := constant.Int64Val(constant.ToInt(cv))
+				if !isInt {
+					okAll = false
+					break
+				}
+				if n < lo {
+					lo = n
+				}
+				if n > hi {
+					hi = n
+				}
+			}
+			if !okAll {
+				continue
+			}
+			// no store into the table anywhere in the module (class-I tables are read-only)
+			if a.c.globalWritten(g) {
+				continue
+			}
+			x := a.lin(u)
+			why := fmt.Sprintf("entries of %s are in [%d, %d]", g.Name(), lo, hi)
+			a.facts = append(a.facts, fact{f: addF(x, konst(lo), -1), why: why}, fact{f: addF(konst(hi), x, -1), why: why})
 		}
 	}
 }
